@@ -351,6 +351,8 @@ func vplSetupOnce(t *testing.T, policy string, mapping bool, transport string) (
 			Mappings: []config.SAMapping{{LocalName: "sa-l", RemoteName: "sa-r"}, {LocalName: "sa-same", RemoteName: "sa-same"}}}}}
 	}
 	switch policy {
+	case "empty":
+		cfg.ACLPolicy = &config.ACLPolicy{}
 	case "methods2":
 		cfg.ACLPolicy = &config.ACLPolicy{AllowedMethods: config.AllowedMethods{AdminService: []string{"DescribeCluster"}}}
 	case "methods":
